@@ -333,6 +333,151 @@ class Garbler:
         e.set(a, '0' * r.choice([1, 2, 50, 1000]) + (e.get(a) or '1'))
         return '%s@%s' % (local(e.tag), a)
 
+    def m_header_values(self, root):
+        """values written by the header fillers against small / signed / char / floating header members:
+        ids, versions, block lengths at and beyond the member range, 127/128/255/256 groups or data members
+        under small counters (numGroups / numVarDataFields are added when missing)"""
+        r = self.r
+        els = self.elements(root)
+        comps = {c.get('name', '').lower(): c for c in els if local(c.tag) == 'composite'}
+        msgs = [m for m in els if local(m.tag) == 'message']
+        grps = [g for g in els if local(g.tag) == 'group']
+        hdr = comps.get((root.get('headerType') or 'messageHeader').lower())
+        small = ['uint8', 'int8', 'char', 'int16', 'uint16', 'int32', 'int64', 'float', 'double']
+        edge = {'uint8': [255, 256], 'int8': [127, 128], 'char': [127, 128], 'int16': [32767, 32768], 'uint16': [65535, 65536],
+                'int32': [2147483647, 2147483648], 'int64': [9223372036854775807, 9223372036854775808],
+                'float': [1, 16777217], 'double': [1, 2]}
+        what = r.choice(['schemaId', 'version', 'templateId', 'blockLength', 'group-blockLength', 'numGroups', 'numVarDataFields',
+                         'group-numGroups', 'counter-type'])
+
+        def member(c, name):
+            for k in c:
+                if k.get('name') == name:
+                    return k
+            return None
+
+        def set_type(c, name, prim, add=False):
+            k = member(c, name)
+            if k is None:
+                if not add:
+                    return False
+                k = ET.SubElement(c, 'type', {'name': name})
+            if local(k.tag) == 'ref':
+                k.tag = 'type'
+                k.attrib.pop('type', None)
+            k.set('primitiveType', prim)
+            return True
+        prim = r.choice(small)
+        v = r.choice(edge[prim] + [edge[prim][0] - 1, 0])
+        if what in ('schemaId', 'version') and hdr is not None:
+            set_type(hdr, what, prim)
+            root.set('id' if what == 'schemaId' else 'version', str(v))
+        elif what == 'templateId' and hdr is not None and msgs:
+            set_type(hdr, what, prim)
+            r.choice(msgs).set('id', str(v))
+        elif what == 'blockLength' and hdr is not None and msgs:
+            set_type(hdr, what, prim)
+            r.choice(msgs).set('blockLength', str(v))
+        elif what == 'group-blockLength' and grps:
+            g = r.choice(grps)
+            d = comps.get((g.get('dimensionType') or 'groupSizeEncoding').lower())
+            if d is None:
+                return None
+            set_type(d, 'blockLength', prim)
+            g.set('blockLength', str(v))
+        elif what in ('numGroups', 'numVarDataFields', 'group-numGroups'):
+            prim = r.choice(['uint8', 'int8', 'char', 'uint16'])
+            n = r.choice(edge[prim]) if prim != 'uint16' else r.choice([300])
+            if what == 'group-numGroups':
+                if not grps:
+                    return None
+                lvl = r.choice(grps)
+                c = comps.get((lvl.get('dimensionType') or 'groupSizeEncoding').lower())
+            else:
+                if not msgs:
+                    return None
+                lvl = r.choice(msgs)
+                c = hdr
+            if c is None:
+                return None
+            name = 'numVarDataFields' if what == 'numVarDataFields' else 'numGroups'
+            set_type(c, name, prim, add=True)
+            tag = 'data' if name == 'numVarDataFields' else 'group'
+            proto = [k for k in lvl if local(k.tag) == tag]
+            if proto:
+                base = proto[0]
+            else:
+                other = [k for k in els if local(k.tag) == tag]
+                if not other:
+                    return None
+                base = other[0]
+            have = len(proto)
+            for i in range(max(0, n - have)):
+                k = copy.deepcopy(base)
+                for sub in list(k):
+                    if local(sub.tag) in ('group', 'data'):
+                        k.remove(sub)
+                k.set('name', '%s_n%d' % (tag, i))
+                k.set('id', str(30000 + i))
+                lvl.append(k)            # groups after fields, data after groups: appended copies keep the order for data
+            if tag == 'group':
+                # keep fields -> groups -> data order
+                kids = list(lvl)
+                for k in kids:
+                    lvl.remove(k)
+                order = {'field': 0, 'group': 1, 'data': 2}
+                kids.sort(key=lambda k: order.get(local(k.tag), 0))
+                lvl.extend(kids)
+            v = n
+        else:
+            cands = [c for c in comps.values() if member(c, 'blockLength') is not None or member(c, 'length') is not None]
+            if not cands:
+                return None
+            c = r.choice(cands)
+            names = [k.get('name') for k in c if k.get('name') in ('blockLength', 'numInGroup', 'length', 'templateId', 'schemaId',
+                                                                     'version', 'numGroups', 'numVarDataFields')]
+            if not names:
+                return None
+            set_type(c, r.choice(names), prim)
+        return '%s:%s=%s' % (what, prim, v)
+
+    def m_enum_dup(self, root):
+        """two validValues with the same value in different spellings (`1`/`01`, `0`/`-0`, chars)"""
+        r = self.r
+        enums = [e for e in self.elements(root) if local(e.tag) == 'enum' and len(e) >= 1]
+        if not enums:
+            return None
+        e = r.choice(enums)
+        vals = [v for v in e if local(v.tag) == 'validValue']
+        if not vals:
+            return None
+        a = r.choice(vals)
+        t = (a.text or '0').strip()
+        if len(vals) >= 2 and r.random() < 0.7:
+            b = r.choice([v for v in vals if v is not a])
+        else:
+            b = copy.deepcopy(a)
+            b.set('name', (a.get('name') or 'v') + '_dup')
+            e.append(b)
+        if e.get('encodingType') == 'char':
+            b.text = r.choice([t, t, t.lower(), t.upper(), '0', '00'])
+            if r.random() < 0.3:
+                a.text = '0'
+        else:
+            spell = r.choice(['same', 'zero', 'zeros', 'minus0', 'plus'])
+            if spell == 'same':
+                b.text = t
+            elif spell == 'zero':
+                b.text = '0' + t.lstrip('-') if not t.startswith('-') else '-0' + t[1:]
+            elif spell == 'zeros':
+                b.text = '0' * r.choice([2, 50, 2000]) + t.lstrip('-')
+            elif spell == 'minus0':
+                a.text = '0'
+                b.text = r.choice(['-0', '-00', '00', '-000'])
+            else:
+                b.text = '+' + t
+        return '%s:%s' % (e.get('encodingType'), b.text[:12])
+
     def m_elem_delete(self, root):
         pm = self.parent_map(root)
         cands = [e for e in self.elements(root) if e in pm]
@@ -528,6 +673,7 @@ class Garbler:
         ('text-garble', 'm_text_garble', 5), ('ref-retarget', 'm_ref_retarget', 12), ('header-garble', 'm_header_garble', 8),
         ('name-clash', 'm_name_clash', 6), ('long-name', 'm_long_name', 2), ('schema-attr', 'm_schema_attr', 4),
         ('many', 'm_many', 1), ('literal-text', 'm_literal_text', 12), ('numeric-text', 'm_numeric_text', 10),
+        ('header-values', 'm_header_values', 10), ('enum-dup', 'm_enum_dup', 5),
     ]
 
     def tree_case(self, xml_text):
